@@ -29,7 +29,7 @@ def gen_link_tree(ctx, idx):
     for k in range(nlinks):
         where = rng.choice(dirs)
         name = "lnk%d" % k
-        kind = rng.choice(["dir_in", "dir_in_rel", "file", "file_rel", "outside_abs", "outside_rel", "above", "ancestor", "self", "dangling", "chain", "mutual", "sibling_rel"])
+        kind = rng.choice(["dir_in", "dir_in_rel", "file", "file_rel", "outside_abs", "outside_rel", "above", "ancestor", "self", "dangling", "chain", "chain_out", "chain_out", "mutual", "sibling_rel"])
         lp = os.path.join(where, name)
         if kind == "dir_in":
             os.symlink(rng.choice(dirs), lp)
@@ -55,6 +55,12 @@ def gen_link_tree(ctx, idx):
             mid = os.path.join(where, "mid%d" % k)
             os.symlink(rng.choice(dirs), mid)
             os.symlink("mid%d" % k, lp)
+        elif kind == "chain_out":
+            # two hops, the second one outside the searched root: only reachable through the chain
+            hop = os.path.join(base, "out", "hop%d" % k)
+            if not os.path.lexists(hop):
+                os.symlink(rng.choice(["deep", os.path.join(base, "out", "deep")]), hop)
+            os.symlink(hop if rng.random() < 0.5 else os.path.relpath(hop, where), lp)
         elif kind == "mutual":
             d2 = rng.choice(dirs)
             os.symlink(os.path.relpath(d2, where), lp)
@@ -202,7 +208,7 @@ def run(ctx):
             st["samples"].append({"argv": [r["query"]], "links": case["links"], "rows": rows})
     ctx.coverage.update(
         evaluations=len(jobs), distinct_nontrivial=len(st["distinct"]), traces_validated_against_impl=st["agreed"],
-        rule="random trees decorated with 1-4 symbolic links: absolute and relative targets, to files, to directories inside the root, outside it and above it, to ancestors (cycles), chains, mutual pairs, self-links, dangling x root spelled '.', relative, './x', absolute x bfs/dfs x maxdepth 0/2/3: the search terminates with status 0 and empty stderr; without `symlinks` the rows are the plain listing; with it every (reachable real directory, entry name) pair appears exactly once; the exact row sequence equals model.WalkLinks.lwalk on the observed graph. non-trivial = a tree with at least one link",
+        rule="random trees decorated with 1-4 symbolic links: absolute and relative targets, to files, to directories inside the root, outside it and above it, to ancestors (cycles), chains (inside the root, and through a second link outside it), mutual pairs, self-links, dangling x root spelled '.', relative, './x', absolute x bfs/dfs x maxdepth 0/2/3: the search terminates with status 0 and empty stderr; without `symlinks` the rows are the plain listing; with it every (reachable real directory, entry name) pair appears exactly once; the exact row sequence equals model.WalkLinks.lwalk on the observed graph. non-trivial = a tree with at least one link",
         samples=st["samples"], distribution=dict(st["hist"]))
     return ctx.finish(trusted=["canonicalize / read_link / stat are the kernel's; the observer (os.scandir, os.readlink, os.path.realpath, os.stat) supplies the graph",
                                "the depth window of entries behind a followed link is computed by the source from canonical paths (saturating); the documentation does not define it, the model reproduces it"])
